@@ -7,7 +7,8 @@
 (G) the same run emits every generated point (rendered class string + denotation + the
     microsecond timestamp computed by TLC on digit strings); the Go driver concretises the
     classes and replays them on the real LineProtocolParser (single lines and batches) and on
-    the real write path parser -> BatchToColumnar -> ArrowBuffer -> FlushAll -> Parquet, read
+    the real write path: HTTP handleWrite (fiber app.Test, one long-lived handler; request sequences
+    incl. TLC's dense-then-sparse two-request family) -> ArrowBuffer -> FlushAll -> Parquet, read
     back with arrow-go.  The spec is the oracle (the property names the InfluxDB rules); only
     constructs the published rules fix unambiguously (strict = TRUE) give verdicts.
 """
@@ -84,7 +85,10 @@ def run(ctx):
     ctx.note("per_family", r["per_family"])
     ctx.note("per_focus_section", r["per_focus_section"])
     ctx.note("batches", r["batches"])
-    ctx.note("write_path", {"lines": r["e2e_lines"], "requests": r["e2e_batches"], "parquet_files": r["e2e_parquet_files"]})
+    ctx.note("write_path", {"lines": r["e2e_lines"], "requests": r["e2e_batches"], "parquet_files": r["e2e_parquet_files"],
+                            "dense_then_sparse_sequence_requests": r.get("sequence_requests", 0)})
+    if r.get("sequence_requests", 0) < 4:
+        raise InfraError("the dense-then-sparse request sequence did not run")
     ctx.note("lenient_observations_not_asserted", r["lenient_observations"])
     ctx.note("exhaustive", True)
     ctx.note("rule", "every line of the canonical templates (0-2 tags x 1-2 fields x timestamp yes/no x numeric/string "
@@ -102,8 +106,9 @@ def run(ctx):
                "tables, but named by the property statement) is judged up to the open choice: it may be stored as one or "
                "two backslashes, but it escapes nothing after it, so the point must be kept with exactly its other "
                "names/values; such points do not enter the batch and write-path tiers")
-    ctx.assume("write-path tier calls the steps of handleWrite (ParseBatchWithPrecision, BatchToColumnar, measurement-name "
-               "validation, WriteColumnarRecord, FlushAll) directly, without HTTP")
+    ctx.assume("write-path tier posts every request to the real LineProtocolHandler (fiber app.Test, one long-lived handler "
+               "and ArrowBuffer for the whole run), then FlushAll and Parquet read-back; gzip/zstd bodies, auth and cluster "
+               "routing are not exercised")
     for v in (r.get("violations") or []):
         w = v["witness"]
         w["occurrences"] = v["count"]
